@@ -466,14 +466,14 @@ def gen_case(rng, malformed=False):
 
     def gen_features(defs, has_data, allow_block=True):
         feats = []
-        pool = ["args", "probe", "group", "router", "litloop", "al", "al"]
+        pool = ["args", "probe", "group", "router", "litloop", "al", "al", "al"]
         plain_args = [n for n, t, _ in defs if t != "sheet" and n not in lst_names]
         lst_args = [n for n, t, _ in defs if n in lst_names]
         sheet_args = [n for n, t, _ in defs if t == "sheet"]
         al_routes = ["lit2", "lit2", "lit2"] + (["rowpairs", "rowpairs", "rowitems", "rowdirect"] if has_data else []) + ["arg"] * (2 if lst_args else 0) \
             + ["sheet"] * (2 if sheet_args else 0) + (["block", "block"] if has_data and allow_block else [])
         if lst_args or sheet_args or has_data:
-            pool += ["al"]
+            pool += ["al", "al"]
         sources = (["val", "flag", "key", "ID"] if has_data else []) + plain_args
         if sources:
             pool += ["mk"] * 5
@@ -1566,10 +1566,11 @@ def check_case(ctx, case, alone_budget=3, record=None, history=True):
     if A[0] != "ok":
         if unique and len(sample) == len(insts) and all(a[0] == "ok" for a in alone.values()):
             fail("bulk-error-not-in-any-single", f"index A stops ({A[1:]}) but every instance compiles alone")
-        elif case["malformed"] is None and all(expected_texts(case, c, i) is not None for c, i in insts):
+        elif case["malformed"] is None and "Error while parsing cell" in str(A[2:]) and all(expected_texts(case, c, i) is not None for c, i in insts):
             # the generator writes well-formed workbooks only (unless told otherwise): every template expression is defined on the
-            # values the property gives the instance, every pop has an element to pop
-            fail("valid-workbook-stops", f"a well-formed workbook stops ({A[1:]}): every instance is defined when it works on its own values")
+            # values the property gives the instance, every pop has an element to pop.  (A well-formed workbook may still stop for
+            # reasons of flow structure - a loop all of whose rows are excluded leaves nothing to connect to -: not judged.)
+            fail("valid-workbook-cell-error", f"a template expression of a well-formed workbook fails ({A[1:]}): it is defined when the instance works on its own values")
         return nfail
     fa = A[1]["flows"]
     got_names = [f["name"] for f in fa]
